@@ -62,11 +62,6 @@ def Ctx.dataPath (cx : Ctx) (k : Nat) : Toks :=
   let d := cx.variant k
   if d.isVariant then [cx.inp.item.ident.tok] ++ colon2 ++ [d.ident.tok] else [d.ident.tok]
 
-/-- `Member: Display` (un-raws identifiers). -/
-def Member.display : Member → String
-  | .named i => i.name
-  | .unnamed n => toString n
-
 /-- `Member: ToTokens`. -/
 def Member.tok : Member → String
   | .named i => i.tok
@@ -219,8 +214,7 @@ mutual
 def Expr.toks (cx : Ctx) : Expr → Toks
   | .litBool b => [if b then "true" else "false"]
   | .litInt n => [toString n]
-  | .litStr (.dataName k) => [quoteStr (cx.variant k).ident.tok]
-  | .litStr (.fieldName k i) => [quoteStr (cx.field k i).member.display]
+  | .litStr s => [quoteStr (cx.inp.item.strText s)]
   | .var x => [x.tok cx]
   | .equal => equalToks
   | .none_ => noneToks
